@@ -33,21 +33,25 @@ type proposed struct {
 }
 
 func loadProposed() []*proposed {
-	b, err := os.ReadFile(filepath.Join(ev.Dir(), "checks", "c08", "known_findings.add.json"))
-	if err != nil {
-		return nil
+	var out []*proposed
+	for _, name := range []string{"known_findings.add.json", "known_findings.round2.add.json"} {
+		b, err := os.ReadFile(filepath.Join(ev.Dir(), "checks", "c08", name))
+		if err != nil {
+			continue
+		}
+		var f struct {
+			Findings []*proposed `json:"findings"`
+		}
+		if err := json.Unmarshal(b, &f); err != nil {
+			fmt.Fprintln(os.Stderr, name+":", err)
+			os.Exit(2)
+		}
+		for _, p := range f.Findings {
+			p.re = regexp.MustCompile(p.Match)
+		}
+		out = append(out, f.Findings...)
 	}
-	var f struct {
-		Findings []*proposed `json:"findings"`
-	}
-	if err := json.Unmarshal(b, &f); err != nil {
-		fmt.Fprintln(os.Stderr, "known_findings.add.json:", err)
-		os.Exit(2)
-	}
-	for _, p := range f.Findings {
-		p.re = regexp.MustCompile(p.Match)
-	}
-	return f.Findings
+	return out
 }
 
 type reporter struct {
@@ -155,6 +159,9 @@ func main() {
 		outcomes += ur.Outcomes
 		levels["unit"] = ur.PerCheck
 		samples = append(samples, ur.Samples...)
+		for _, ne := range ur.NotExhaustive {
+			r.NotExhaustive(ne)
+		}
 		if p := os.Getenv("C08_DUMP"); p != "" {
 			b, _ := json.MarshalIndent(ur, "", " ")
 			_ = os.WriteFile(p+".unit", b, 0o644)
@@ -230,7 +237,7 @@ func main() {
 	var known []map[string]any
 	for _, p := range rp.proposed {
 		if p.hits > 0 {
-			fmt.Printf("KNOWN-FINDING: property=C08 %s (matched %d violation keys of /%s/; proposed in checks/c08/known_findings.add.json)\n", p.What, p.hits, p.Match)
+			fmt.Printf("KNOWN-FINDING: property=C08 %s (matched %d violation keys of /%s/; proposed in checks/c08/known_findings*.add.json)\n", p.What, p.hits, p.Match)
 			known = append(known, map[string]any{"what": p.What, "violation_keys": p.hits})
 		}
 	}
